@@ -38,6 +38,18 @@ func materialisable(t types.Type) bool {
 
 // getValues runs the obligation script with (get-value ...) for the given terms.
 func (vc *VC) getValues(o *Obl, extra []string, terms []string, dir string) (map[string]string, bool) {
+	if !vc.noEngineAxioms {
+		if m, ok := vc.getValues1(o, extra, terms, dir); ok {
+			return m, true
+		}
+		// models of heavily quantified contexts are often not reproducible: retry without the engine's
+		// closure / shape axioms (the replay re-checks the executable preconditions on the result)
+		vc.noEngineAxioms = true
+	}
+	return vc.getValues1(o, extra, terms, dir)
+}
+
+func (vc *VC) getValues1(o *Obl, extra []string, terms []string, dir string) (map[string]string, bool) {
 	var sb strings.Builder
 	sb.WriteString("(set-option :produce-models true)\n(set-logic ALL)\n")
 	sb.WriteString(vc.preambleFor(vc.usesMS(o.CtxLen, o.Goal)))
@@ -45,6 +57,9 @@ func (vc *VC) getValues(o *Obl, extra []string, terms []string, dir string) (map
 		sb.WriteString(d + "\n")
 	}
 	for _, c := range vc.cmds[:o.CtxLen] {
+		if vc.noEngineAxioms && strings.HasSuffix(c, ";E") {
+			continue
+		}
 		sb.WriteString(c)
 		sb.WriteByte('\n')
 	}
@@ -60,30 +75,39 @@ func (vc *VC) getValues(o *Obl, extra []string, terms []string, dir string) (map
 	os.WriteFile(file, []byte(sb.String()), 0o644)
 	// the solver that found the model goes first
 	order := []solverSpec{}
+	pref := o.Solver
+	if vc.valueSolver != "" {
+		pref = vc.valueSolver // the solver that answered the previous value query
+	}
 	for _, sp := range solvers {
-		if sp.Name == o.Solver {
+		if sp.Name == pref {
 			order = append(order, sp)
 		}
 	}
 	for _, sp := range solvers {
-		if sp.Name != o.Solver {
+		if sp.Name != pref {
 			order = append(order, sp)
 		}
 	}
 	var r solveOut
 	for i, sp := range order {
-		to := 10
+		to := 4
 		if i > 0 {
-			to = 5
+			to = 3
 		}
 		r = runSolver(sp, file, to)
 		if r.status == "sat" {
 			break
 		}
+		// an "unknown" answer still comes with a candidate model; the replay on the real code is the judge
+		if r.status == "unknown" && strings.Contains(r.output, "((") && !strings.Contains(r.output, "(error") {
+			break
+		}
 	}
-	if r.status != "sat" {
+	if r.status != "sat" && r.status != "unknown" {
 		return nil, false
 	}
+	vc.valueSolver = r.solver
 	lines := strings.Split(r.output, "\n")
 	// join everything after the first line and split top-level s-expressions
 	vals := splitSexprs(strings.Join(lines[1:], " "))
